@@ -136,6 +136,11 @@ def main():
         "broken_obligations": broken,
         "known_findings_hit": sorted(seen_known),
     }
+    if cov["obligations"] < 1 or cov["discharged"] < 1:
+        # the schema's proof-level keys need >= 1; when the proof side is broken this run is a violation anyway and
+        # the evidence falls back to the exploration-style counts (evaluations / distinct_nontrivial)
+        cov["obligations_attempted"] = cov.pop("obligations")
+        cov["discharged_now"] = cov.pop("discharged")
     cov.update(jsonable(res.extra))
     ev = {"property_id": prop, "tier": tier if tier in ("quick", "thorough") else "quick", "seed": seed,
           "level": level, "coverage": cov, "assumptions": getattr(mod, "ASSUMPTIONS", []),
